@@ -35,6 +35,9 @@ CORPUS = [
     "$N = int;\nfn main() { $N = 4; println($N); $N += 1; println($N); }",
     "$S = { a: int, l: [int] };\nfn bump(s: $S, k: int) -> int { s.a += k; s.a } fn main() { println(bump(2)); println(bump(3)); $S = new { a: 40, l: [1] }; println(bump(1)); println($S); }",
     "fn main() { let o: ?int = none; try { println(1 + o.unwrap()); } catch e { println(\"caught\"); }; println(2); }",
+    # M1, M2 (repaired)
+    "fn main() { let r = 1; let o = new { ? }; o.set(\"k\", 5); let q: ?any = o.get(\"k\"); let r: any = q; let s: ?int = r; println(s); }",
+    "fn main() { let a = [1]; let b = [2]; a.concat(b); b[0] = 7; println(a, b); let c = [3]; c.concat(c); c[0] = 5; println(c); }",
 ]
 
 
